@@ -612,6 +612,44 @@ def shared(ctx, part, nparts):
         compare(name, 'OA', dict(extra), want, [(cn, lambda C=C: C.OA(o.copy(), a.copy())) for cn, C in classes])
 
 
+def seqprod(ctx, dim):
+    """the sequence product in each representation that has one: prod() of N values (N = 1..9, every N, not only powers of two)
+    equals the reference product of the N matrices, for poses, rotations and twists alike"""
+    S = sm()
+    tier, seed = ctx.tier, ctx.seed
+    G = alph.gen_SE(dim, tier, seed)
+    G = [g for g in alph.subset(G, 9, 4) if tsc(g[1]) <= 1e3 + 1]
+    for N, off in itertools.product(range(1, 10), range(3)):
+        seq = [G[(off + 2 * j) % len(G)] for j in range(N)]
+        Mref = np.eye(dim + 1)
+        for _, M in seq:
+            Mref = Mref @ M
+        sc = max([tsc(M) for _, M in seq] + [tsc(Mref)])
+        cid = 'C04/%dD/prod/N=%d/off=%d' % (dim, N, off)
+        if not ctx.want(cid):
+            continue
+        ctx.case(cid, trivial=False)
+        P = dict(dim=dim, N=N, step='prod')
+        SEc, SOc, TWc = (S.SE3, S.SO3, S.Twist3) if dim == 3 else (S.SE2, S.SO2, S.Twist2)
+        X = safe(ctx, cid, SEc.__name__ + '.prod', P, lambda: SEc([M.copy() for _, M in seq]).prod())
+        if X is not None:
+            cmp(ctx, cid, SEc.__name__ + '.prod', P, X.A, Mref, sc, '%s.prod() of %d values' % (SEc.__name__, N))
+        R = safe(ctx, cid, SOc.__name__ + '.prod', P, lambda: SOc([M[:dim, :dim].copy() for _, M in seq]).prod())
+        if R is not None:
+            cmp(ctx, cid, SOc.__name__ + '.prod', P, R.A, Mref[:dim, :dim], 1, '%s.prod() of %d values' % (SOc.__name__, N))
+        tws = []
+        for _, M in seq:
+            t_ = safe(ctx, cid, SEc.__name__ + '.' + TWc.__name__, P, lambda M=M: getattr(SEc(M.copy()), TWc.__name__)())
+            if t_ is None:
+                break
+            tws.append(np.asarray(t_.S, dtype=float))
+        if len(tws) == N:
+            W = safe(ctx, cid, TWc.__name__ + '.prod', P, lambda: TWc([t.copy() for t in tws]).prod())
+            if W is not None and np.all(np.isfinite(np.asarray(W.S, dtype=float))):
+                ex = ref.mp_exp_se3 if dim == 3 else ref.mp_exp_se2
+                cmp(ctx, cid, TWc.__name__ + '.prod', P, ex(np.asarray(W.S, dtype=float)), Mref, sc, '%s.prod() of %d values (reference exponential)' % (TWc.__name__, N))
+
+
 def shards(tier, seed):
     out = []
     K3, K2 = (3, 2) if tier == 'quick' else (12, 6)
@@ -619,11 +657,14 @@ def shards(tier, seed):
     out += [('bfs', 2, k, K2) for k in range(K2)]
     n = 8 if tier == 'quick' else 32
     out += [('shared', k, n) for k in range(n)]
+    out += [('prod', 3), ('prod', 2)]
     return out
 
 
 def run_shard(ctx, shard):
     if shard[0] == 'bfs':
         bfs(ctx, shard[1], shard[2], shard[3])
+    elif shard[0] == 'prod':
+        seqprod(ctx, shard[1])
     else:
         shared(ctx, shard[1], shard[2])
